@@ -14,7 +14,7 @@ Declare Scope t_scope. Delimit Scope t_scope with t.
 Notation "0" := (o0 K) : t_scope. Notation "1" := (o1 K) : t_scope.
 Infix "+" := (oadd K) : t_scope. Infix "*" := (omul K) : t_scope. Infix "-" := (osub K) : t_scope.
 Local Open Scope t_scope.
-Notation R := (R K). Notation dc_round := (dc_round K). Notation dc_eval := (dc_eval K).
+Notation R := (dcR K). Notation dc_round := (dc_round K). Notation dc_eval := (dc_eval K).
 Notation P := (P K). Notation L := (L K).
 
 (* pointwise linear combination *)
@@ -36,14 +36,14 @@ Qed.
 Lemma R_affine a b s v :
   R ((1 - s) * a + s * b) v = lin (1 - s) (R a v) s (R b v).
 Proof.
-  unfold Curve.R. induction v as [|p v IH]; auto.
+  unfold Curve.dcR. induction v as [|p v IH]; auto.
   destruct v as [|q v']; auto.
   cbn [Curve.dc_round lin] in IH |- *. rewrite IH. f_equal. ring.
 Qed.
 
 Lemma R_comm a b : forall v, R a (R b v) = R b (R a v).
 Proof.
-  unfold Curve.R. induction v as [|p v IH]; auto.
+  unfold Curve.dcR. induction v as [|p v IH]; auto.
   destruct v as [|q v']; auto. destruct v' as [|r v'']; auto.
   cbn [Curve.dc_round] in IH |- *. rewrite IH. f_equal. ring.
 Qed.
@@ -58,7 +58,7 @@ Proof.
 Qed.
 
 Lemma R_length a v : length (R a v) = pred (length v).
-Proof. unfold Curve.R. apply (dc_round_length K). Qed.
+Proof. unfold Curve.dcR. apply (dc_round_length K). Qed.
 
 Lemma iter_length a k : forall v, length (iter (R a) k v) = (length v - k)%nat.
 Proof. induction k; intros v; simpl; [lia|]. rewrite IHk, R_length. lia. Qed.
@@ -85,7 +85,7 @@ Qed.
 Lemma step a b s n v : length v = S (S n) ->
   R s (L a b (S n) v) = L a b n (R ((1 - s) * a + s * b) v).
 Proof.
-  intros Hl. unfold Curve.L, Curve.R at 1. rewrite dc_round_map_seq.
+  intros Hl. unfold Curve.L, Curve.dcR at 1. rewrite dc_round_map_seq.
   apply map_ext_in. intros j Hj. apply in_seq in Hj.
   unfold Curve.P. rewrite R_affine.
   assert (Hla : length (R a v) = S n) by (rewrite R_length, Hl; reflexivity).
@@ -220,14 +220,14 @@ Lemma left_cols_raw_W n : left_cols_raw K n = map (fun i => W K i h h) (seq 0 (S
 Proof. unfold left_cols_raw. change [1] with (W K 0 h h). apply left_cols_aux_W. Qed.
 
 (* R 0 drops the last node; R 1 drops the first *)
-Lemma R0_removelast : forall v, R K 0 v = removelast v.
+Lemma R0_removelast : forall v, dcR K 0 v = removelast v.
 Proof.
-  unfold R. induction v as [|a v IH]; [reflexivity|]. destruct v as [|b v']; [reflexivity|].
+  unfold dcR. induction v as [|a v IH]; [reflexivity|]. destruct v as [|b v']; [reflexivity|].
   cbn [dc_round removelast] in IH |- *. rewrite IH. f_equal. ring.
 Qed.
-Lemma R1_tl : forall v, R K 1 v = tl v.
+Lemma R1_tl : forall v, dcR K 1 v = tl v.
 Proof.
-  unfold R. induction v as [|a v IH]; [reflexivity|]. destruct v as [|b v']; [reflexivity|].
+  unfold dcR. induction v as [|a v IH]; [reflexivity|]. destruct v as [|b v']; [reflexivity|].
   cbn [dc_round tl] in IH |- *. rewrite IH. f_equal. ring.
 Qed.
 Lemma removelast_firstn_len {A} (l : list A) : removelast l = firstn (length l - 1) l.
@@ -235,14 +235,14 @@ Proof.
   induction l as [|a l IH]; [reflexivity|]. destruct l as [|b l']; [reflexivity|].
   cbn [removelast length] in IH |- *. rewrite IH. cbn [Nat.sub]. rewrite Nat.sub_0_r. reflexivity.
 Qed.
-Lemma iter_R0 : forall k v, iter (R K 0) k v = firstn (length v - k) v.
+Lemma iter_R0 : forall k v, iter (dcR K 0) k v = firstn (length v - k) v.
 Proof.
   induction k; intros v; cbn [iter].
   - rewrite Nat.sub_0_r, firstn_all. reflexivity.
   - rewrite IHk, R0_removelast, removelast_firstn_len.
     rewrite firstn_length. rewrite firstn_firstn. f_equal. lia.
 Qed.
-Lemma iter_R1 : forall k v, iter (R K 1) k v = skipn k v.
+Lemma iter_R1 : forall k v, iter (dcR K 1) k v = skipn k v.
 Proof.
   induction k; intros v; cbn [iter]; [reflexivity|]. rewrite IHk, R1_tl. destruct v; [destruct k; reflexivity|reflexivity].
 Qed.
@@ -251,9 +251,9 @@ Lemma dc_eval_iter l1 l2 : forall k v, dc_eval K k l1 l2 v = hd 0 (iter (dc_roun
 Proof. induction k; intros v; cbn [dc_eval iter]; [reflexivity|apply IHk]. Qed.
 
 Lemma hd_iter_half j u : length u = S j ->
-  hd 0 (iter (R K h) j u) = dot K (W K j h h) u.
+  hd 0 (iter (dcR K h) j u) = dot K (W K j h h) u.
 Proof.
-  intros Hl. unfold R. rewrite one_minus_half. rewrite <- dc_eval_iter.
+  intros Hl. unfold dcR. rewrite one_minus_half. rewrite <- dc_eval_iter.
   apply (dc_eval_correct K RT). exact Hl.
 Qed.
 
